@@ -32,6 +32,15 @@ pub enum Tokenizer {
 }
 
 impl CountVectorizerValidParams {
+    /// A parameter set that was configured with a tokenizer function and then deserialized has
+    /// lost the function (it cannot be serialized): refuse to tokenize with the fallback regex.
+    fn validate_deserialization(&self) -> Result<()> {
+        if self.tokenizer_function().is_none() && self.tokenizer_deserialization_guard {
+            return Err(PreprocessingError::TokenizerNotSet);
+        }
+        Ok(())
+    }
+
     /// Learns a vocabulary from the documents in `x`, according to the specified attributes and maps each
     /// vocabulary entry to an integer value, producing a [CountVectorizer](CountVectorizer).
     ///
@@ -44,6 +53,7 @@ impl CountVectorizerValidParams {
         &self,
         x: &ArrayBase<D, Ix1>,
     ) -> Result<CountVectorizer> {
+        self.validate_deserialization()?;
         // word, (integer mapping for word, document frequency for word)
         let mut vocabulary: HashMap<String, (usize, usize)> = HashMap::new();
         for string in x.iter().map(|s| transform_string(s.to_string(), self)) {
@@ -80,6 +90,7 @@ impl CountVectorizerValidParams {
         encoding: EncodingRef,
         trap: DecoderTrap,
     ) -> Result<CountVectorizer> {
+        self.validate_deserialization()?;
         // word, (integer mapping for word, document frequency for word)
         let mut vocabulary: HashMap<String, (usize, usize)> = HashMap::new();
         let documents_count = input.len();
